@@ -190,3 +190,9 @@ pub fn get_quintant_polar(polar: Polar) -> usize {
     let gamma = polar.gamma().0; // Extract f64 from Radians
     ((gamma / (TWO_PI_OVER_5).0).round() as i32 + 5) as usize % 5
 }
+
+/// Verification hook: the private quintant rotation matrices
+#[cfg(feature = "verif")]
+pub fn verif_quintant_rotations() -> [Mat2; 5] {
+    quintant_rotations()
+}
